@@ -705,6 +705,14 @@ func areaNames(r *Rng, n int, dir string) (*AreaOut, error) {
 			return
 		}
 		add(fmt.Sprintf("NSan %s %s", cBytes([]byte(s)), cBytes([]byte(o))), "san "+hexs([]byte(s)), "san/"+what, true)
+		// the same name taken from the HOST NAME because no instance name is configured goes through the same sanitiser
+		oldHost := syncer.VerifSetHostname(s)
+		viaHost, herr := san.instanceID("")
+		syncer.VerifSetHostname(oldHost)
+		out.OracleN++
+		if herr != nil || viaHost != o {
+			fail("sanitize-hostname-fallback", fmt.Sprintf("host name %q used as the instance name (none configured) gives %q (error %v); configured explicitly it is sanitised to %q", s, viaHost, herr, o), hexs([]byte(s)))
+		}
 		out.OracleN++
 		switch {
 		case !nmIsSafe(o):
